@@ -7,6 +7,7 @@ import (
 	"reflect"
 	"sort"
 	"strings"
+	"sync/atomic"
 	"time"
 
 	"github.com/anishathalye/porcupine"
@@ -158,6 +159,18 @@ func (c17) Gen(r *sim.RNG, tier string, idx int) *Scenario {
 		}
 		sc.Tasks = append(sc.Tasks, ops)
 	}
+	if sc.Mix == "shared-hcache" || sc.Mix == "shared-libcache" {
+		// one cache, one representation of the root: every call registers the root it was given in the
+		// shared cache, and "the same set of documents" includes the form they are held in
+		form := []string{"typed", "generic"}[r.Intn(2)]
+		for t := range sc.Tasks {
+			for i := range sc.Tasks[t] {
+				if sc.Tasks[t][i].Root == "typed" || sc.Tasks[t][i].Root == "generic" {
+					sc.Tasks[t][i].Root = form
+				}
+			}
+		}
+	}
 	if r.Bool(0.2) && sc.Mix != "shared-readonly-doc" {
 		// a document that cannot be had (permanently): tasks and references fail alike
 		sc.Faults = DrawFaults(w, r, 1, []string{sim.FRefuse, sim.FTorn, sim.FIllTyped}, nil, false)
@@ -205,6 +218,8 @@ type cacheEvent struct {
 type recCache struct {
 	inner  spec.ResolutionCache
 	events [17][]cacheEvent // per task: only the owning goroutine appends
+	// unrecorded: some call came from a goroutine the library started itself; the history is incomplete
+	unrecorded int32
 }
 
 func valueID(v interface{}) string {
@@ -220,6 +235,11 @@ func valueID(v interface{}) string {
 }
 
 func (c *recCache) Get(k string) (interface{}, bool) {
+	if sim.Foreign() {
+		// a goroutine the library started itself: not a task, its calls are not part of the recorded history
+		atomic.StoreInt32(&c.unrecorded, 1)
+		return c.inner.Get(k)
+	}
 	t := sim.CurTask()
 	call := sim.NextSeq()
 	sim.YieldPoint("reccache.Get")
@@ -234,6 +254,11 @@ func (c *recCache) Get(k string) (interface{}, bool) {
 }
 
 func (c *recCache) Set(k string, v interface{}) {
+	if sim.Foreign() {
+		atomic.StoreInt32(&c.unrecorded, 1)
+		c.inner.Set(k, v)
+		return
+	}
 	t := sim.CurTask()
 	call := sim.NextSeq()
 	sim.YieldPoint("reccache.Set")
@@ -544,7 +569,9 @@ func (c17) Run(sc *Scenario) *Verdict {
 			}
 		}
 	}
-	if rec != nil {
+	if rec != nil && atomic.LoadInt32(&rec.unrecorded) != 0 {
+		v.probe("cache-history-incomplete(library goroutines)")
+	} else if rec != nil {
 		var ops []porcupine.Operation
 		for t := range rec.events {
 			for _, e := range rec.events[t] {
